@@ -60,7 +60,11 @@ fn child() {
                     let leaked: &'static RecCollector = Box::leak(Box::new(c));
                     handles.insert(d, Dispatch::from_static(leaked));
                 } else {
-                    handles.insert(d, Dispatch::new(c));
+                    handles.insert(d, match step["wrap"].as_str().unwrap_or("") {
+                        "arc" => Dispatch::new(Arc::new(c)),
+                        "box" => Dispatch::new(Box::new(c) as Box<dyn tracing_core::Collect + Send + Sync>),
+                        _ => Dispatch::new(c),
+                    });
                 }
                 flags.insert(d, flag);
             }
